@@ -218,6 +218,54 @@ fn traversal_check(v: &IppValue) -> Result<(), String> {
             return Err(format!("yields {:?} after the end (extra call {})", g, extra));
         }
     }
+    // the provided Iterator methods a user may call on a partly consumed traversal: nth, skip, step_by, last, count
+    let n = want.len();
+    for j in 0..=(n + 1).min(5) {
+        for k in 0..=(n + 1).min(5) {
+            let mut it = v.into_iter();
+            for _ in 0..j {
+                it.next();
+            }
+            let got = it.nth(k);
+            let exp = want.get(j + k).copied();
+            if got.map(|g| g as *const IppValue) != exp.map(|g| g as *const IppValue) {
+                return Err(format!("after {} next() calls nth({}) gives {:?}, expected {:?}", j, k, got, exp));
+            }
+            let after = it.next();
+            let exp2 = want.get(j + k + 1).copied();
+            if exp.is_some() && after.map(|g| g as *const IppValue) != exp2.map(|g| g as *const IppValue) {
+                return Err(format!("after {} next() calls and nth({}) the following element is {:?}, expected {:?}", j, k, after, exp2));
+            }
+        }
+        for step in [2usize, 3] {
+            let mut it = v.into_iter();
+            for _ in 0..j {
+                it.next();
+            }
+            let got: Vec<*const IppValue> = it.step_by(step).take(n + 3).map(|g| g as *const IppValue).collect();
+            let exp: Vec<*const IppValue> = want.iter().skip(j).step_by(step).map(|g| *g as *const IppValue).collect();
+            if got != exp {
+                return Err(format!("after {} next() calls step_by({}) visits {} elements, expected {} (or other ones)", j, step, got.len(), exp.len()));
+            }
+        }
+        let mut it = v.into_iter();
+        for _ in 0..j {
+            it.next();
+        }
+        let c = it.take(n + 5).count();
+        if c != n.saturating_sub(j) {
+            return Err(format!("after {} next() calls {} elements remain, expected {}", j, c, n.saturating_sub(j)));
+        }
+        let mut it = v.into_iter();
+        for _ in 0..j {
+            it.next();
+        }
+        let l = it.skip(1).next();
+        let exp = want.get(j + 1).copied();
+        if l.map(|g| g as *const IppValue) != exp.map(|g| g as *const IppValue) {
+            return Err(format!("after {} next() calls skip(1) gives {:?}, expected {:?}", j, l, exp));
+        }
+    }
     // the for-loop form must agree
     let n = v.into_iter().take(want.len() + 5).count();
     if n != want.len() {
@@ -252,7 +300,7 @@ pub fn run(ctx: &Ctx) -> ! {
     let mut rep = Report::new(
         ctx,
         "model_checking",
-        "explicit-state breadth-first search to a FIXPOINT over the alphabet add(kind in {operation, job, printer, unsupported}, name in {a,b}, value in {1,2[,3]}) from the empty container and from parser-produced messages with repeated / empty groups; every state is rebuilt as a fresh real IppAttributes from its history (IppAttributes::new or IppParser::parse_parts, then add ... add), the operation is applied to the real object and to the ordered model R6, and groups(), groups_of(kind) for all four kinds and into_groups() are compared with the model on every transition. Value traversal: every value of the bounded value space, IntoIterator compared element-by-element (pointer identity) with the model sequence, then None three times; collections over every subset of <= 3 of 11 tricky member names (empty, case twins, trailing blank / NUL, NFC vs NFD, extremes of the octet order) with scalar / set / collection members, built in memory and read back from the wire; the expected member order is established by sorting the names, not taken from the map. states = distinct canonical container states; non-trivial = more than one attribute",
+        "explicit-state breadth-first search to a FIXPOINT over the alphabet add(kind in {operation, job, printer, unsupported}, name in {a,b}, value in {1,2[,3]}) from the empty container and from parser-produced messages with repeated / empty groups; every state is rebuilt as a fresh real IppAttributes from its history (IppAttributes::new or IppParser::parse_parts, then add ... add), the operation is applied to the real object and to the ordered model R6, and groups(), groups_of(kind) for all four kinds and into_groups() are compared with the model on every transition. Value traversal: every value of the bounded value space, IntoIterator compared element-by-element (pointer identity) with the model sequence, then None three times, and the provided iterator methods (nth, skip, step_by, count) on a partly consumed traversal; collections over every subset of <= 3 of 11 tricky member names (empty, case twins, trailing blank / NUL, NFC vs NFD, extremes of the octet order) with scalar / set / collection members, built in memory and read back from the wire; the expected member order is established by sorting the names, not taken from the map. states = distinct canonical container states; non-trivial = more than one attribute",
     );
     rep.assume("canonicalisation (ordered list of (kind, sorted name->value map)) merges only states with equal futures: add/groups_of depend on group kinds in order and on map contents only");
 
